@@ -22,7 +22,47 @@ def sh(cmd, cwd=None, timeout=1800):
     return r.returncode, r.stdout
 
 
+def recheck(name):
+    """re-run our check against a stored seed (seeded/<name>/patch.diff) and update its evaluation"""
+    dst = os.path.join(VERIF, "seeded", name)
+    meta = json.load(open(os.path.join(dst, "meta.json")))
+    res = meta.setdefault("evaluation", {})
+    pid = res.get("property") or meta.get("property")
+    rc, out = sh("git -C /repo status --short -- rtrlib third-party")
+    if out.strip():
+        print("/repo has local modifications; refusing")
+        return 1
+    rc, out = sh("git -C /repo apply %s" % os.path.join(dst, "patch.diff"))
+    if rc != 0:
+        print("patch does not apply:", out)
+        return 1
+    try:
+        rc, out = sh("./check %s --tier quick" % pid, cwd=VERIF, timeout=3600)
+        res["check_rc"] = rc
+        res["check_lines"] = [l for l in out.splitlines() if l.startswith("VIOLATION") or l.startswith("KNOWN-FINDING")]
+        res["detected"] = any(l.startswith("VIOLATION") for l in out.splitlines())
+        res["replay_heads"] = []
+        for l in res["check_lines"]:
+            if l.startswith("VIOLATION") and "replay=" in l:
+                p = l.split("replay=")[1].split()[0]
+                if os.path.exists(p):
+                    res["replay_heads"].append(open(p).read()[:600])
+        res["rechecked"] = True
+    finally:
+        sh("git -C /repo checkout -- .")
+        sh("python3 tools/gen_constants.py; python3 tools/gen_locks.py", cwd=VERIF)
+    with open(os.path.join(dst, "meta.json"), "w") as f:
+        json.dump(meta, f, indent=1)
+    print(name, json.dumps({k: res.get(k) for k in ("detected", "check_rc", "check_lines")}))
+    return 0
+
+
 def main():
+    if sys.argv[1] == "--recheck":
+        rc = 0
+        for n in sys.argv[2:]:
+            rc |= recheck(n)
+        return rc
     wt, pid = sys.argv[1], sys.argv[2]
     name = sys.argv[3] if len(sys.argv) > 3 else pid
     src = os.path.join(wt, "out", pid)
